@@ -103,5 +103,31 @@ def run(tier, seed):
         assumptions=['BLST primitives selected by the macro sets implement the same contracts (trusted base of C05)'],
         trusted=cstubs.TRUSTED_A + stubs_big.TRUSTED,
         explanation='the decoder / reduction lemmas of C05 and C12 re-proved on the IR of the portable configurations: each configuration equals the same reference, hence they equal each other; plus a syntactic SSA comparison for the no_cgo build')
-    merge(['C20_purego', 'C20_default', 'C20_cglue'], tier, seed, t0)
+    # (e) the non-BLS functionality re-proved on the CGO_ENABLED=0 -tags no_cgo build (the ECDSA harnesses compile
+    # there; the BLS ones do not exist in that build): key generation bounds and derivation, decoders, Sign / Verify
+    blens = set([32, 31, 1])
+    EO = {'big_len_set': blens}
+    nc = []
+    for algo in (0, 1):
+        for n in ((0, 15, 16, 17, 31, 32, 33, 256, 257) if not thorough else list(range(0, 66)) + [255, 256, 257]):
+            nc.append(Case('nocgo_keygen_a%d_seed_%d' % (algo, n), 'crypto', 'zzC12_ecdsa', [algo, n], opts=EO))
+        for n in (31, 32, 33):
+            nc.append(Case('nocgo_privkey_a%d_%d' % (algo, n), 'crypto', 'zzC05_ecdsa_private', [algo, n], opts=EO))
+        for n in (63, 64, 65):
+            nc.append(Case('nocgo_pubkey_a%d_%d' % (algo, n), 'crypto', 'zzC05_ecdsa_public', [algo, n, False], opts=EO))
+        for n in (32, 33, 34):
+            nc.append(Case('nocgo_pubkey_compressed_a%d_%d' % (algo, n), 'crypto', 'zzC05_ecdsa_public', [algo, n, True], opts=EO))
+        for h in (0, 2):
+            nc.append(Case('nocgo_verify_a%d_h%d' % (algo, h), 'crypto', 'zzC11_verify', [algo, 64, h], opts=EO))
+        nc.append(Case('nocgo_sign_a%d' % algo, 'crypto', 'zzC11_sign', [algo, 0], opts=EO))
+        nc.append(Case('nocgo_errors_a%d' % algo, 'crypto', 'zzC11_errors', [algo], opts=EO))
+    rc |= run_check('C20', nc, tier, seed, setup='symex.setup_c:with_c', tags='verif_harness,no_cgo', cgo=False, ssa_name='ssa_nocgo_h', evidence_name='C20_nocgo',
+        replay_env='export CGO_ENABLED=0   # the no_cgo build',
+        functions=['crypto.GeneratePrivateKey / (*ecdsaAlgo).generatePrivateKey / decodePrivateKey / decodePublicKey / decodePublicKeyCompressed / Sign / Verify in the CGO_ENABLED=0 -tags no_cgo build'],
+        bounds={'configuration': 'CGO_ENABLED=0 -tags no_cgo: the same ECDSA lemmas as C12 (key generation: seed-length bounds 32..256 as literals, HKDF derivation), C05 (decoders) and C11 (Sign / Verify glue) on the SSA of that build',
+                'seed lengths': 'boundary set incl. 15, 16, 17, 31, 32, 33, 256, 257 (thorough: 0..65, 255..257)'},
+        assumptions=['same as C11 / C12 (uninterpreted ECDSA relation, HKDF as a function of its arguments)'],
+        trusted=stubs_big.TRUSTED,
+        explanation='each configuration equals the same reference (documented bounds and derivations), hence the configurations equal each other')
+    merge(['C20_purego', 'C20_default', 'C20_cglue', 'C20_nocgo'], tier, seed, t0)
     return 1 if rc else 0
